@@ -283,7 +283,7 @@ def arr_getitem(ex, obj, idx):
     out = new_array(ex, tuple(new_shape), c.dtype, elem)
     # numpy basic indexing returns a view: writes through the view reach the base array
     ex.st.cell(out).tag = ("view", obj.addr, maps)
-    ex.st.cell(out).elem = lambda ix, maps=maps, addr=obj.addr: _view_elem(ex, addr, maps, ix)
+    ex.st.cell(out)._heap = ex.st.heap
     return out
 
 
@@ -402,6 +402,8 @@ def arr_setitem(ex, obj, idx, val):
         if not ex.st.branch(shape_eq(tuple(sub_shape), cv.shape)):
             ex.throw("ValueError", "could not broadcast input array into shape")
 
+    velem = cell(ex, val).elem if ex.is_arr(val) else None      # snapshot of the right-hand side NOW
+
     def elem(ix, old=old):
         cs, vix = [], []
         for p, i in zip(pos, ix):
@@ -411,7 +413,7 @@ def arr_setitem(ex, obj, idx, val):
                 cs.append(z3.And(z_int(i) >= p[1], z_int(i) < p[2]))
                 vix.append(z_int(i) - p[1])
         cond = z_and(*cs)
-        nv = cast_elem(ex, cell(ex, val).elem(tuple(vix)) if ex.is_arr(val) else val, c.dtype)
+        nv = cast_elem(ex, velem(tuple(vix)) if velem is not None else val, c.dtype)
         return ite_val(cond, nv, old(ix))
     write_elem(ex, obj, elem)
 
@@ -509,6 +511,7 @@ def _mk_fill(value):
 
 NP["numpy.zeros"] = _mk_fill(0)
 NP["numpy.ones"] = _mk_fill(1)
+NP["numpy.empty"] = _mk_fill(0)
 
 
 @npfn("numpy.full")
@@ -603,6 +606,22 @@ def _array(ex, args, kwargs, fr):
                 out = ite_val(z_int(ix[0]) == j, cast_elem(ex, items[j], d), out)
             return out
         return new_array(ex, (len(items),), d, elem)
+    if items is not None and items and all(ex.try_list(x) is not None for x in items):
+        rows_ = [ex.try_list(x) for x in items]
+        if all(len(r) == len(rows_[0]) and all(is_num(y) for y in r) for r in rows_):
+            d = dtype or VDtype("float64" if any(isinstance(y, VFloat) for r in rows_ for y in r) else "int64")
+
+            def elem2(ix, rows_=rows_, d=d):
+                def row(r):
+                    out = cast_elem(ex, r[-1], d)
+                    for j in range(len(r) - 2, -1, -1):
+                        out = ite_val(z_int(ix[1]) == j, cast_elem(ex, r[j], d), out)
+                    return out
+                out = row(rows_[-1])
+                for i in range(len(rows_) - 2, -1, -1):
+                    out = ite_val(z_int(ix[0]) == i, row(rows_[i]), out)
+                return out
+            return new_array(ex, (len(rows_), len(rows_[0])), d, elem2)
     h = ex.cfg.lib_overrides.get(("np.array_of",))
     if h is not None:
         return h(ex, v, dtype, fr)
@@ -1040,3 +1059,33 @@ def _rng_seed(ex, args, kwargs, fr):
 def rng_draw(ex):
     ex.st.ghost["RNG"] = rng_advance(rng_get(ex))
     ex.st.events.append(("rng_draw",))
+
+
+binom_draw = z3.Function("binom_draw", z3.IntSort(), z3.IntSort(), z3.IntSort(), z3.IntSort())
+
+
+@npfn("numpy.random.binomial")
+def _binomial(ex, args, kwargs, fr):
+    """Library contract: B(n, p) sample per element with 0 <= B <= n (requires n >= 0 and 0 <= p <= 1, else numpy
+    raises ValueError)."""
+    n = kwargs.get("n", args[0] if args else None)
+    p = kwargs.get("p", args[1] if len(args) > 1 else None)
+    if not ex.is_arr(n):
+        raise Unsupported("scalar binomial draw")
+    rng_draw(ex)
+    c = cell(ex, n)
+    did = ex.st.fresh_int("draw")
+
+    def elem(ix):
+        nn = z_int(as_int_term(c.elem(ix)))
+        b = binom_draw(did, z_int(ix[0]), z_int(ix[1])) if len(ix) == 2 else ex.st.fresh_int("binom")
+        return VInt(z3.If(b < 0, 0, z3.If(b > nn, z3.If(nn < 0, 0, nn), b)))
+    return new_array(ex, c.shape, VDtype("int64"), elem)
+
+
+@npfn("numpy.mean")
+def _mean(ex, args, kwargs, fr):
+    c = cell(ex, args[0])
+    r = VFloat(ex.st.fresh_real("mean"))
+    ex.st.ghost.setdefault("reductions", []).append({"result": r, "elem": c.elem, "shape": c.shape, "kind": "mean", "dtype": c.dtype})
+    return r
